@@ -1461,6 +1461,32 @@ func variantsFor(rng *core.Rand, base []call, full bool) []variant {
 			}
 		}
 	}
+	// mixed double faults inside one pass, always run: a write refused by ACLs next to a write that fails for
+	// another reason (an entry's own failure must not be papered over by the refusal of a neighbour: a check
+	// registered with its own token is sent together with its service's definition)
+	var mixed []variant
+	for _, d1 := range descs {
+		for _, d2 := range descs {
+			if d1 == d2 || !strings.HasPrefix(d1, "register:") || !strings.HasPrefix(d2, "register:") {
+				continue
+			}
+			for _, k1 := range []string{"generic", "no-method"} {
+				for _, k2 := range []string{"denied", "acl-not-found"} {
+					mixed = append(mixed, variant{Faults: []faultSpec{{Desc: d1, Kind: k1}, {Desc: d2, Kind: k2}}, Retry: len(mixed)%2 == 0})
+				}
+			}
+		}
+	}
+	if lim := core.N(24, 400); len(mixed) > lim {
+		p := rng.Perm(len(mixed))[:lim]
+		sort.Ints(p)
+		sel := make([]variant, 0, lim)
+		for _, x := range p {
+			sel = append(sel, mixed[x])
+		}
+		mixed = sel
+	}
+	out = append(out, mixed...)
 	limit := core.N(16, 240)
 	if len(pairs) > limit {
 		p := rng.Perm(len(pairs))[:limit]
